@@ -64,6 +64,8 @@ func checkHiddenClaimed(res *Result, rule string) {
 			n++
 			if !tt.claimed[pm.Name] {
 				bad = append(bad, tm.G.Name+"."+pm.Name)
+			} else if u := tt.claimedVocab[pm.Name]; u != "" && normURI(u) != normURI(pm.VocabURI) {
+				bad = append(bad, tm.G.Name+"."+pm.Name+" (claimed under the alias of another vocabulary)")
 			}
 		}
 	}
